@@ -228,8 +228,14 @@ LOOP:
 			if offset > hw {
 				break LOOP
 			}
+			key := ms.Message().Key()
+			if key == nil {
+				// Messages without a key are always retained and must not
+				// be confused with messages carrying an empty key.
+				continue
+			}
 			curr, loaded := keyOffsets.LoadOrStore(
-				string(ms.Message().Key()), &keyOffset{offset: offset})
+				string(key), &keyOffset{offset: offset})
 			if loaded {
 				curr.(*keyOffset).set(offset)
 			}
